@@ -596,7 +596,8 @@ pub fn driver_set(prop: Prop, thorough: bool) -> Vec<Planned> {
         for (pi, pre) in preludes().into_iter().enumerate() {
             // quick tier: the deviation only for the small unbounded drivers
             let calls: usize = programs.iter().map(|p| p.len()).sum();
-            let spurious = if thorough || (mode == Mode::U && calls <= 4) { 1 } else { 0 };
+            // deviation budget: Mode-U drivers in the thorough tier, the small Mode-U drivers in the quick tier
+            let spurious = if mode == Mode::U && (thorough || calls <= 4) { 1 } else { 0 };
             out.push(Planned {
                 driver: HistDriver { label: format!("{} s{}", label, pi), path, prop, prelude: pre, programs: programs.clone(), audit: true },
                 mode,
@@ -616,9 +617,11 @@ pub fn run_set(plan: Vec<Planned>, cap: u64, fallback_bound: usize) -> Vec<(Stri
         let t0 = std::time::Instant::now();
         let mut used = p.mode;
         SPURIOUS_BUDGET.store(p.spurious, std::sync::atomic::Ordering::Relaxed);
-        let mut r = explore(p.driver, p.mode, cap, 16);
+        let cap_here = if let Mode::B(_) = p.mode { cap * 4 } else { cap };
+        let mut r = explore(p.driver, p.mode, cap_here, 16);
         if r.cap_hit && p.mode == Mode::U && r.violations.is_empty() {
             used = Mode::B(fallback_bound);
+            SPURIOUS_BUDGET.store(0, std::sync::atomic::Ordering::Relaxed);
             r = explore(copy, used, cap * 4, 16);
         }
         eprintln!("  {:<28} {:?} dev<={}: {} executions (+{} sleep-blocked), {} outcomes, {} violations, cap_hit={} {:.1}s", name.split(" [").next().unwrap_or(""), used, SPURIOUS_BUDGET.load(std::sync::atomic::Ordering::Relaxed), r.executions, r.sleep_blocked, r.outcomes.len(), r.violations.len(), r.cap_hit, t0.elapsed().as_secs_f64());
